@@ -85,6 +85,7 @@ CANARIES = {
         ("copy-loses-not", "stix2/equivalence/pattern/transform/comparison.py", "text", ["ast.operator, new_object_path, ast.rhs, ast.negated,", "ast.operator, new_object_path, ast.rhs,"], "C09.copy-complete"),
         ("set-semantics-containment", "stix2/equivalence/pattern/transform/observation.py", "text", ["                    del container[i]\n", "                    pass\n"], "C09.distinct-bindings"),
         ("regexes-canonicalised-as-values", "stix2/equivalence/pattern/transform/comparison.py", "text", ['        if ast.operator in ("MATCHES", "LIKE"):', '        if False:'], "C09.value-operators-only"),
+        ("wildcard-index-as-string", "stix2/equivalence/pattern/compare/comparison.py", "text", ["                yield ANY_INDEX\n", "                yield comp.index\n"], "C09.type-guard"),
     ],
     "C10": [
         ("negation-constant", "stix2/pattern_visitor.py", "last-arg-false", ["visitPropTestSet", "InComparisonExpression"], "C10.not-aware"),
